@@ -8,6 +8,8 @@
 #include "QXmppClient.h"
 #include "QXmppConstants_p.h"
 
+#include "StringLiterals.h"
+
 #include <QDomElement>
 
 /// \cond
@@ -20,6 +22,12 @@ QStringList QXmppArchiveManager::discoveryFeatures() const
 bool QXmppArchiveManager::handleStanza(const QDomElement &element)
 {
     if (element.tagName() != u"iq") {
+        return false;
+    }
+
+    // only responses are handled here, requests are answered with an error by the client
+    const auto type = element.attribute(u"type"_s);
+    if (type != u"result" && type != u"error") {
         return false;
     }
 
